@@ -66,6 +66,14 @@ def entry_ops(t):
         ("build.path", b(scheme="http", host="h", path="/" + t)), ("build.path_noauth", b(path=t)), ("build.query_string", b(scheme="http", host="h", query_string=t)),
         ("build.query_dict", b(scheme="http", host="h", query={"t": "dict", "v": [[t, t]]})),
         ("build.query_seq", b(scheme="http", host="h", query={"t": "list", "v": [{"t": "tuple", "v": [t, t]}]})),
+        # argument COMBINATIONS: an explicitly empty (not None) query next to a query_string, empty texts next to dirty ones
+        ("build.query_string+empty_dict", b(scheme="http", host="h", query={"t": "dict", "v": []}, query_string=t)),
+        ("build.query_string+empty_str", b(scheme="http", host="h", query="", query_string=t)),
+        ("build.query_string+empty_list", b(scheme="http", host="h", query={"t": "list", "v": []}, query_string=t)),
+        ("build.query_string+empty_tuple", b(scheme="http", host="h", query={"t": "tuple", "v": []}, query_string=t)),
+        ("build.query_string+empty_mdict", b(scheme="http", host="h", query={"t": "mdict", "v": []}, query_string=t)),
+        ("build.query_string+fragment+path", b(scheme="http", host="h", path="/" + t, query_string=t, fragment=t, user="", password="")),
+        ("build.all_texts_noauth", b(path=t, query_string=t, fragment=t)),
         ("build.fragment", b(scheme="http", host="h", fragment=t)), ("build.authority_user", b(scheme="http", authority=f"{t}@h")),
         ("build.authority_password", b(scheme="http", authority=f"u:{t}@h:81")),
     ]
